@@ -28,6 +28,11 @@ from core import f2bits
 MODULE = "DfolsVerif.Properties.C07"
 BUILD_TARGETS = ["DfolsVerif.Driver.ValidateDrv"]
 MAIN = "ValidateMain.lean"
+def pre_build(ctx):
+    import gen_exitsites
+    ctx.cov["exit_creation_sites_in_repo"] = gen_exitsites.regenerate(ctx)
+
+
 THEOREMS = [
     "Dfols.GenSpec.paramDefaults_eq",
     "Dfols.GenSpec.paramTypes_eq",
@@ -45,6 +50,8 @@ THEOREMS = [
     "Dfols.C07.C07_messages_match_source",
     "Dfols.C07.C07_old_nine_argument_call",
     "Dfols.C07.C07_old_missing_constants",
+    "Dfols.C07.C07_src_input_checks",
+    "Dfols.C07.C07_src_input_checks_guarded",
 ]
 TRUSTED_EXTRA = [
     "modelled, not verified: arrays are represented by their shapes; rhobeg's default 0.1*max(max|x0|,1) and min(xu-xl) are "
